@@ -16,6 +16,7 @@ MONOIDS = {0: "sum (identity 0)", 1: "product (identity 1)", 2: "max (identity m
 MODES = {0: "preloaded closed buffered input, real scheduler",
          1: "synctest bubble, unbuffered input, one send per Wait (round-robin over the parked workers)",
          2: "unbuffered input fed by a yielding producer goroutine, real scheduler",
+         4: "sum over reference-typed accumulators with an in-place Combine (every Empty() fresh); preloaded, real scheduler",
          3: "volume: 1..N preloaded, many workers really in parallel (GOMAXPROCS 4..16)"}
 RULE = ("the real fork.Fold, pipe.Fold and a plain loop are run for each of six coded commutative monoids (sum, product, max, min, "
         "bitwise and, bitmask or: identities 0, 1, min-int, max-int, -1, 0) x par in {1,2,3,4,7} x input length 0..12 (so also empty "
